@@ -32,12 +32,12 @@ PROPS = {
     "C01": {"level": "exploration", "assumptions": SIM_ASSUME, "parts": [sim("TestC01")]},
     "C02": {"level": "exploration", "assumptions": SIM_ASSUME, "parts": [sim("TestC02", q=(300, 4), t=(4000, 16)), sim("TestC02Graphs", q=(600, 4), t=(20000, 16))]},
     "C03": {"level": "exploration", "assumptions": SIM_ASSUME, "parts": [sim("TestC03")]},
-    "C04": {"level": "exploration", "assumptions": SIM_ASSUME, "parts": [sim("TestC04")]},
+    "C04": {"level": "exploration", "assumptions": SIM_ASSUME, "parts": [sim("TestC04"), rp("procs", "TestC04Real", (12, 2), (300, 8), helpers=["cmd/vhelper"])]},
     "C05": {"level": "exploration", "assumptions": SIM_ASSUME, "parts": [sim("TestC05")]},
     "C06": {"level": "exploration", "assumptions": SIM_ASSUME, "parts": [sim("TestC06")]},
     "C07": {"level": "exploration", "assumptions": SIM_ASSUME, "parts": [sim("TestC07Sim"),
                                                                                {"pkg": "sim", "test": "TestC07Real", "quick": {"checks": 4, "shards": 1, "shrink": "5s", "timeout": "10m"}, "thorough": {"checks": 60, "shards": 4, "shrink": "30s", "timeout": "2h"}}]},
-    "C08": {"level": "exploration", "assumptions": SIM_ASSUME, "parts": [sim("TestC08", q=(300, 4), t=(4000, 16))]},
+    "C08": {"level": "exploration", "assumptions": SIM_ASSUME, "parts": [sim("TestC08", q=(300, 4), t=(4000, 16)), rp("procs", "TestC08Real", (12, 2), (300, 8), helpers=["cmd/vhelper"])]},
     "C09": {"level": "fault_enumeration", "min_nontrivial": 10,
             "assumptions": ["the kernel's rename(2) is atomic; durability against power loss (no fsync) is outside the statement", "strace syscall fault injection (thorough and quick fault part); SIGKILL as the crash model", "snapshots are produced by a pure function shared by the saving child and the checking parent"],
             "parts": [rp("storefs", "TestC09Readers", (25, 2), (300, 8), helpers=["cmd/vhelper"]), rp("storefs", "TestC09Kill", (80, 2), (1500, 8), helpers=["cmd/vhelper"]),
